@@ -39,6 +39,9 @@ def setup(ctx):
 
 
 def case(ctx, rnd, i):
+    if i == 0:
+        stepwork.repo_tests_workload(ctx, ID)
+        return
     if i % 4 == 3:
         from . import opwork
 
